@@ -18,8 +18,29 @@ class OutOfReach(Exception):
     The verdict for the function is *undecided* (exit 2), never 'held' or 'violation'."""
 
 
+_has_str_cache = {}
+
+
+def has_str(e):
+    """does a z3 term mention a sequence / regular-expression sorted subterm (cached)"""
+    k = e.get_id()
+    r = _has_str_cache.get(k)
+    if r is None:
+        if z3.is_seq(e) or z3.is_re(e):
+            r = True
+        elif z3.is_quantifier(e):
+            r = has_str(e.body())
+        elif z3.is_app(e):
+            r = any(has_str(c) for c in e.children())
+        else:
+            r = False
+        _has_str_cache[k] = r
+    return r
+
+
 class State:
     def __init__(self):
+        self.strpc = False
         self.env = {}
         self.heap = {}
         self.pc = []
@@ -44,6 +65,7 @@ class State:
             s.ghost[k] = v
         s.exc_stack = list(self.exc_stack)
         s.trace = list(self.trace)
+        s.strpc = self.strpc
         return s
 
     def assume(self, *conds):
@@ -52,6 +74,8 @@ class State:
                 continue
             if c is False:
                 c = z3.BoolVal(False)
+            if not self.strpc and z3.is_expr(c) and has_str(c):
+                self.strpc = True
             self.pc.append(c)
         return self
 
